@@ -188,7 +188,7 @@ func (c *c01) sweep(name string, r bitio.ReaderAtSeeker, m bstr) {
 					for i := range p {
 						p[i] = 0x5a
 					}
-					got, err = bitio.ReadAtFull(nd.r, p, n, off)
+					got, err = bitio.ReadAtFull(guard(nd.r, n), p, n, off)
 					c.run.Count("op:ReadAtFull", 1)
 					if err != nil || got != n {
 						c.fail("ReadAtFull:short", "ReadAtFull(n=%d, off=%d) on %s len %d returned (%d,%v)", n, off, name, L, got, err)
